@@ -63,6 +63,8 @@ def run(ctx):  # noqa: C901, PLR0912, PLR0915
     # a context state obtained through the entity interface is a copy: associating it there associates nothing in the MDIB
     common.entity_getters_hand_out_copies(ctx, 'C10.R1')
     common.skip_lists_are_kept(ctx, 'C10.R2')
+    ctx.borrow('C06', {'C06.R4'}, 'C10.R2', why='the consumer mirror of the association state loses no report during its load')
+    ctx.borrow('C01', {'C01.R2'}, 'C10.R3', contains=['every report part is visited'], why='the disassociation of a state in another MDS reaches the mirror')
     # the SetContextState handler writes back every state it recorded as modified: the handle list handed to write_entity is the
     # recorded list itself - a filter (`if h in entity.states`) turns the KeyError that rejects an inconsistent multi-proposal
     # request into an accepted request whose stale second copy re-associates what the first proposal disassociated
